@@ -3,11 +3,12 @@
 # Runs the check of <prop> against a scratch copy of /repo with the seeded change applied (VERIF_REPO); /repo itself and
 # /verif/evidence are not touched, so trials can run next to clean-tree runs and next to each other.
 name=$1; prop=$2; tier=${3:-quick}
-cd /verif
+V=$(cd "$(dirname "$0")/.." && pwd)
+cd "$V"
 R=$(mktemp -d /tmp/repomut.XXXXXX); E=$(mktemp -d /tmp/evmut.XXXXXX)
 trap 'rm -rf "$R" "$E"' EXIT
 rsync -a --exclude .git /repo/ "$R"/
-( cd "$R" && git apply /verif/seeded/$name/patch.diff ) || { echo "patch does not apply"; exit 2; }
+( cd "$R" && git apply "$V"/seeded/$name/patch.diff ) || { echo "patch does not apply"; exit 2; }
 start=$(date +%s)
 VERIF_REPO=$R VERIF_EVIDENCE_DIR=$E ./check $prop $tier > /tmp/try_${name}_$prop.out 2>&1; rc=$?
 echo "mutant=$name check=$prop tier=$tier exit=$rc secs=$(( $(date +%s) - start )) $(grep -c '^VIOLATION' /tmp/try_${name}_$prop.out) violation-lines"
